@@ -3,6 +3,7 @@ import MosnVerif.Lemmas.Downstream.Parked
 import MosnVerif.Lemmas.Downstream.Prov
 import MosnVerif.Lemmas.Downstream.Backoff9
 import MosnVerif.Lemmas.ReplyWrite
+import MosnVerif.Lemmas.ReplyWriteMachine
 /-!
 # C03 — every request ends exactly once, with one reply, in bounded time (property theorems only)
 
@@ -655,6 +656,27 @@ theorem reply_write_clean_once (c : Model.Downstream.Cfg) (ar aq : Nat) (l : Lis
     (reach c ar aq l).downLive (Model.Downstream.nLog (reach c ar aq l).trace) (clean_once c ar aq l)
   have := exec_cleanInv o w _ hv
   exact ⟨this.count, this.listed⟩
+
+/-- **ok_write_is_machine_step**: the machine's infallible reply steps are the all-writes-succeed runs of the regenerated append
+programs — from every reachable machine state that is not cleaned (so `clean_once` gives "no clean-up body so far"), the
+successful run of `appendHeaders(eos)` / `appendData(eos)` / `appendTrailers()` on the write path's view of the state yields
+the same `upstreamProcessDone`, `downstreamCleaned`, `downstreamReset`, number of clean-up bodies and gauge as the machine's
+`dsAppendHeaders` / `dsAppendData` / `dsAppendTrailers`.  The theorems above extend these steps to failing writes and
+interleaved departures of the client. -/
+theorem ok_write_is_machine_step (c : Model.Downstream.Cfg) (ar aq : Nat) (l : List Model.Downstream.Label) (eos : Bool)
+    (hc : (reach c ar aq l).cleaned = false) :
+    common (okPart .headers eos (viewS (reach c ar aq l))) = commonS (Model.Downstream.dsAppendHeaders c (reach c ar aq l) eos) ∧
+    common (okPart .data eos (viewS (reach c ar aq l))) = commonS (Model.Downstream.dsAppendData c (reach c ar aq l) eos) ∧
+    common (okPart .trailers true (viewS (reach c ar aq l))) = commonS (Model.Downstream.dsAppendTrailers c (reach c ar aq l)) := by
+  have h0 : Model.Downstream.nLog (reach c ar aq l).trace = 0 := by
+    have := clean_once c ar aq l
+    rw [hc] at this
+    simpa using this
+  exact ⟨ok_headers_is_machine_step c _ eos hc h0, ok_data_is_machine_step c _ eos hc h0, ok_trailers_is_machine_step c _ hc h0⟩
+
+/-- non-vacuity: the request is sent, a header-only 200 arrives, the worker is about to write it — not cleaned -/
+example : (reach {} 0 0 (List.replicate 12 .work ++ [.upResp 0 200 false false, .work, .work])).cleaned = false ∧
+    (reach {} 0 0 (List.replicate 12 .work ++ [.upResp 0 200 false false, .work, .work])).phase = .UpRecvHeader := by decide
 
 /-- the worker has returned from the write exactly as `worker_returns_iff_cleaned` says of the machine: returned and cleaned -/
 theorem reply_write_returns_cleaned (r : Reply) (o : Outs) (rp : Nat) (viaConn clientGone upLive : Bool) :
